@@ -85,6 +85,9 @@ def partFn (name : String) : Option ((List Val → List Val) × Bool) :=
   | "dupp" => some (fun xs => xs.flatMap fun v => [v, v], true)
   | "rev" => some (List.reverse, false)
   | "countp" => some (fun xs => [.int xs.length], false)
+  -- the argument of a partition function is an ITERATOR: a second pass over it sees nothing; `next` works on it
+  | "twicep" => some (fun xs => [.int xs.length, .int 0], false)
+  | "nextlen" => some (fun xs => [.int xs.length], false)
   | "firstp" => some (fun xs => xs.take 1, false)
   | "sump" => some (fun xs => [.int (xs.foldl (fun a v => match v with | .int i => a + i | _ => a) 0)], false)
   | _ => none
